@@ -10,7 +10,24 @@ import sys
 import traceback
 
 
+def _exit_when_orphaned():
+    """A worker stuck in a loop of the code under test never reads its stdin again: when the check that started it goes away
+    (killed, timed out) the worker must not keep a core busy for hours."""
+    import threading
+    import time
+    parent = os.getppid()
+    real_sleep = time.sleep
+
+    def watch():
+        while True:
+            real_sleep(2.0)
+            if os.getppid() != parent:
+                os._exit(3)
+    threading.Thread(target=watch, daemon=True).start()
+
+
 def main():
+    _exit_when_orphaned()
     proto = os.fdopen(os.dup(1), "w", buffering=1)
     # anything printed by accident goes to stderr, never to the protocol pipe
     os.dup2(2, 1)
